@@ -8,6 +8,7 @@ from .. import core, corpus, diag, lang, larkconv, mv as MV, tgen
 from ..lang import Node
 
 ID = "C03"
+READY = True
 LEVEL = "exploration"
 WORKERS = {"quick": 8, "thorough": 16}
 BUDGET = {"quick": 60, "thorough": 420}
@@ -232,7 +233,11 @@ def run(ctx):
     for i, (src, tag) in enumerate(SPECIALS):
         if ctx.mine(i):
             for benv in ({}, {"x": ("map", ((("string", "get"), ("int", 1)), (("string", "keys"), ("int", 2)), (("string", "class"), ("int", 3)), (("string", "y"), ("map", ((("string", "z"), ("int", 9)),))))), "class": ("int", 5), "ex_0": ("int", 6), "CEL": ("int", 7), "match": ("int", 8), "identifiers": ("int", 9), "functions": ("int", 10), "get": ("int", 11), "package": ("string", "p"), "None": ("int", 1), "True": ("int", 1), "activation": ("int", 1), "base_activation": ("int", 2), "celpy": ("int", 3), "operator": ("int", 4), "clone": ("int", 5), "resolve_variable": ("int", 6), "lambda": ("int", 7), "not": ("int", 8)}):
-                compare(acc, src, benv, "special", tag=tag)
+                try:
+                    node = larkconv.conv(parser.parse(src))
+                except Exception:
+                    node = None
+                compare(acc, src, benv, "special", node=node, tag=tag)
                 acc.sample({"src": src, "origin": "special"}, limit=2)
 
     # 2. corpus
